@@ -7,7 +7,7 @@ From Srtla Require Import Base Constants FConstants Stall StallSel StallOps Run_
 From Srtla Require Export Stall StallSel Route.
 Local Open Scope Z_scope.
 
-Record case := mkCase {
+Record dcase := mkCase {
   r_cfg : config; r_last : option Z; r_now : Z; r_ins : list selin;
   r_critical : bool; r_pkt : pkt;
   r_pre : list link;            (* real links before the call *)
@@ -42,7 +42,7 @@ Fixpoint others_ok (routed : option Z) (data : bool) (pre post : list link) (i :
   | _, _ => false
   end.
 
-Definition mon_C04 (c : case) : N :=
+Definition mon_C04 (c : dcase) : N :=
   if negb (Nat.eqb (length (r_pre c)) (length (r_post c))) then 4%N else
   match r_routed c with
   | Some k =>
@@ -54,8 +54,84 @@ Definition mon_C04 (c : case) : N :=
   | None => if others_ok None (p_data (r_pkt c)) (r_pre c) (r_post c) 0 then 0%N else 3%N
   end.
 
-Definition check_case (c : case) : N :=
+(** ---- fault histories on real sockets (second case kind) ----------------------------------
+    A history of REAL event-loop arms on links with real loopback sockets, every client
+    datagram entering with the session established: [handle_srt_packet], the flush tick
+    [flush_all_batches], and the faults of the property's quantifier (soft reset
+    [mark_for_recovery], re-connection [reconnect_uplink], re-registration).  After every step
+    the harness counts the stream-data datagrams that reached each uplink's receiver socket. *)
+Record fstep := mkFS {
+  fs_kind : Z;              (* 0 client datagram, 1 flush tick, 2 soft reset, 3 reconnect, 4 REG3, 5 idle time *)
+  fs_pre_conn : list bool;  (* connected flag of every link BEFORE the step *)
+  fs_tx : list Z;           (* stream-data datagrams that reached each link's receiver during the step *)
+  fs_queue : list Z         (* queue depth of every link after the step *)
+}.
+
+(** clause 5: an uplink that is registering (not connected since its last reset) put stream data
+    on the wire.  It is not a probe target either (probes go to connected, gated links). *)
+Fixpoint tx_while_down (pre : list bool) (tx : list Z) : bool :=
+  match pre, tx with
+  | c :: pre', n :: tx' => (negb c && (0 <? n)) || tx_while_down pre' tx'
+  | _, _ => false
+  end.
+
+Fixpoint mon_fault (steps : list fstep) : N :=
+  match steps with
+  | [] => 0%N
+  | st :: rest => if tx_while_down (fs_pre_conn st) (fs_tx st) then 5%N else mon_fault rest
+  end.
+
+(** the abstract queue model behind clause 5 (used only by the theorem C04_fault_model_holds: the
+    implementation's fault traces are judged by [mon_fault] directly, there is no model-vs-
+    implementation comparison for this case kind) *)
+Inductive fop :=
+| FClient (sel : option nat) (flushed : bool)   (* routed to [sel]; the size threshold flushed it or not *)
+| FFlush
+| FSoftReset (i : nat) | FReconnect (i : nat) | FReg3 (i : nat) | FIdle.
+
+Definition flink := (bool * Z)%type.     (* connected, queued stream datagrams *)
+
+Fixpoint fupd (i : nat) (f : flink -> flink) (s : list flink) {struct s} : list flink :=
+  match s, i with
+  | [], _ => []
+  | x :: t, O => f x :: t
+  | x :: t, S k => x :: fupd k f t
+  end.
+
+Definition fop_kind (o : fop) : Z :=
+  match o with FClient _ _ => 0 | FFlush => 1 | FSoftReset _ => 2 | FReconnect _ => 3 | FReg3 _ => 4 | FIdle => 5 end.
+
+(** one step: new state and what each link transmitted *)
+Definition fstep_model (s : list flink) (o : fop) : list flink * list Z :=
+  match o with
+  | FClient (Some k) flushed =>
+      let s1 := fupd k (fun l => (fst l, snd l + 1)) s in
+      if flushed
+      then (fupd k (fun l => (fst l, 0)) s1,
+            map (fun p => if Nat.eqb (fst p) k then snd (snd p) else 0) (combine (seq 0 (length s1)) s1))
+      else (s1, map (fun _ => 0) s1)
+  | FClient None _ => (s, map (fun _ => 0) s)
+  | FFlush => (map (fun l => (fst l, 0)) s, map snd s)
+  | FSoftReset i | FReconnect i => (fupd i (fun _ => (false, 0)) s, map (fun _ => 0) s)
+  | FReg3 i => (fupd i (fun l => (true, 0)) s, map (fun _ => 0) s)     (* clear_pre_registration_state *)
+  | FIdle => (s, map (fun _ => 0) s)
+  end.
+
+Fixpoint ftrace (s : list flink) (ops : list fop) : list fstep :=
+  match ops with
+  | [] => []
+  | o :: t => let '(s', tx) := fstep_model s o in
+              mkFS (fop_kind o) (map fst s) tx (map snd s') :: ftrace s' t
+  end.
+
+Inductive case := CDec (c : dcase) | CFault (steps : list fstep).
+
+Definition check_case (c4 : case) : N :=
+  match c4 with
+  | CFault steps => let cl := mon_fault steps in ((if (cl =? 0)%N then 0 else 2) + 4 * cl)%N
+  | CDec c =>
   let '(ls', routed) := handle FILTERED (r_cfg c) (r_last c) (r_now c) (r_ins c) (r_critical c) (r_pkt c) (r_pre c) in
   let corr := links_eqb ls' (r_post c) && opt_eqb Z.eqb routed (r_routed c) in
   let cl := mon_C04 c in
-  ((if corr then 0 else 1) + (if (cl =? 0)%N then 0 else 2) + 4 * cl)%N.
+  ((if corr then 0 else 1) + (if (cl =? 0)%N then 0 else 2) + 4 * cl)%N
+  end.
